@@ -180,7 +180,18 @@ type dbClient struct {
 	rec   *recorder
 }
 
-func (c *dbClient) Init(ctx context.Context, g imap.UIDValidityGenerator) error { return c.inner.Init(ctx, g) }
+// Init (open + migrations) is one step boundary of the start-up: when it fails for a reason that is not a failed
+// migration the database must still be there at the next start.
+func (c *dbClient) Init(ctx context.Context, g imap.UIDValidityGenerator) error {
+	c.rec.enter()
+	defer c.rec.leave()
+	if err := c.rec.boundary("db.Init"); err != nil {
+		return err
+	}
+	err := c.inner.Init(ctx, g)
+	c.rec.add(event{K: "init"})
+	return err
+}
 func (c *dbClient) Close() error                                              { return c.inner.Close() }
 
 func (c *dbClient) Read(ctx context.Context, op func(context.Context, db.ReadOnly) error) error {
